@@ -151,6 +151,14 @@ class Report:
         cov["solver_queries"] = self.queries
         cov["solver_time_s"] = round(self.solver_s, 3)
         cov["paths"] = self.paths
+        from . import robust
+
+        cov["solver_escalations"] = dict(
+            robust.read_log(),
+            meaning="queries whose first answer was `unknown` and that were re-asked (real "
+                    "relaxation, fresh z3 contexts, other seeds, longer budget) before being "
+                    "counted; still_unknown of them stayed undecided and are the inconclusive "
+                    "obligations / over-approximated branches of this run")
         cov["known_findings_reported"] = self.known_hits
         cov.setdefault("checker_cmd", f"./check {self.pid} --tier {self.tier}")
         cov.setdefault("trusted_base", ["z3 5.1 (python wheel)", "CPython 3.12",
@@ -159,11 +167,23 @@ class Report:
         cov.setdefault("explanation", "")
         if self.harness_errors:
             cov["harness_errors"] = self.harness_errors[:20]
+        level = self.level
+        if level == "proof" and self.discharged != self.obligations:
+            # a proof-level record needs every obligation discharged.  This run did not get there
+            # (undecided after the escalation ladder, or refuted): it is recorded for what it is
+            level = "other"
+            cov["level_note"] = (
+                f"the check claims level 'proof'; THIS run discharged {self.discharged} of "
+                f"{self.obligations} obligations ({len(self.inconclusive)} undecided by the solver "
+                f"after engine/robust.py's ladder, {self.obligations - self.discharged - len(self.inconclusive)} "
+                f"refuted), so this record is written at level 'other' and is not evidence of a proof")
+            cov["explanation"] = cov["level_note"] + ". " + cov.get("explanation", "")
+            print(f"# {self.pid}: {cov['level_note']}", flush=True)
         ev = {
             "property_id": self.pid,
             "tier": self.tier,
             "seed": self.seed,
-            "level": self.level,
+            "level": level,
             "coverage": cov,
             "assumptions": self.assumptions,
             "wall_s": round(time.time() - self.t0, 3),
